@@ -41,18 +41,23 @@ struct St {
     verbatim_subframes: usize,
     subframes: usize,
     skipped_known: usize,
+    struct_cases: usize,
+    max_struct_cases: usize,
 }
 
 fn judge(out: &mut Out, st: &mut St, cfg: &Cfg, kind: &str, pcm: &[i32], file: &[u8], constant: bool) {
     st.files += 1;
     let input: Vec<(&str, String)> = vec![("cfg", cfg.json()), ("kind", esc(kind)), ("pcm", ints(&pcm[..pcm.len().min(6000)])), ("pcm_len", pcm.len().to_string())];
     let it = match catch(|| FrameIterator::new(Cursor::new(file))) { Ok(Ok(it)) => it, _ => return };
-    let items = match catch(|| it.collect::<Vec<_>>()) { Ok(v) => v, Err(_) => return };
+    let items = match catch(|| { let mut v = vec![]; for r in it { let stop = r.is_err(); v.push(r); if stop { break; } } v }) { Ok(v) => v, Err(_) => return };
     let mut offs = vec![];
     let mut frames = vec![];
     for r in items { match r { Ok((f, o)) => { offs.push(o as usize); frames.push(f); } Err(_) => return } }
     offs.push(file.len());
     let ch = cfg.ch as usize;
+    if st.struct_cases < st.max_struct_cases {
+        for line in encoder_struct_cases(file, 2, 2500) { st.struct_cases += 1; out.case(line); }
+    }
     for (k, f) in frames.iter().enumerate() {
         st.frames += 1;
         let n = u16::from(f.header.block_size) as usize;
@@ -106,11 +111,11 @@ fn main() {
     let mut rng = Rng::new(seed, 0xC19);
     let known = probe_known();
     clear_panic_loc();
-    let mut st = St { files: 0, frames: 0, const_frames: 0, worst_ratio_permille: 0, worst_const: 0, assignments: Default::default(), cases: 0, max_cases: scale(if thorough { 4000 } else { 500 }), verbatim_subframes: 0, subframes: 0, skipped_known: 0 };
+    let mut st = St { files: 0, frames: 0, const_frames: 0, worst_ratio_permille: 0, worst_const: 0, assignments: Default::default(), cases: 0, max_cases: scale(if thorough { 4000 } else { 500 }), verbatim_subframes: 0, subframes: 0, skipped_known: 0, struct_cases: 0, max_struct_cases: scale(if thorough { 3000 } else { 400 }) };
     // adversarial shapes: full-scale white noise, alternating extremes, Rice mis-estimate
     // (tiny values with rare full-scale outliers), steps, i32::MIN-adjacent values
     let adversarial = ["noise", "fullscale", "extremes", "outliers", "sparse", "steps", "min_adjacent", "impulse", "alt_small", "stereo_opposite", "wasted"];
-    let n_adv = scale(if thorough { 5000 } else { 600 });
+    let n_adv = scale(if thorough { 20000 } else { 600 });
     for i in 0..n_adv {
         let mut cfg = random_cfg(&mut rng, &known);
         cfg.declare_total = true;
@@ -154,7 +159,7 @@ fn main() {
         }
     }
     // constant blocks of any length
-    let n_const = scale(if thorough { 3000 } else { 500 });
+    let n_const = scale(if thorough { 12000 } else { 500 });
     for i in 0..n_const {
         let mut cfg = random_cfg(&mut rng, &known);
         if cfg.hits_known_writer_defect(&known) { st.skipped_known += 1; continue; }
